@@ -270,13 +270,16 @@ def resetFold (R : RTbl V) : List Name → Dict V → Except Err (Dict V)
     | .error .attributeError => resetFold R rest s
     | .error e => .error e
 
+/-- common tail of the helpers: in place the receiver becomes the result -/
+def finish (inplace : Bool) (self : Dict V) (r : Except Err (Dict V)) (calls : List Name) : StepRes V :=
+  match r with
+  | .error e => ⟨self, .error e, none, calls⟩
+  | .ok s' => ⟨if inplace then s' else self, .ok s', none, calls⟩
+
 /-- One API call on an instance whose `__dict__` is `s`. For a copy-on-write
 call (`inplace = false`) `res` is the new instance and `self` the receiver. -/
 def step (R : RTbl V) (s : Dict V) (op : Op V) (inplace : Bool) : StepRes V :=
-  let fin (self : Dict V) (r : Except Err (Dict V)) (calls : List Name) : StepRes V :=
-    match r with
-    | .error e => ⟨self, .error e, none, calls⟩
-    | .ok s' => ⟨if inplace then s' else self, .ok s', none, calls⟩
+  let fin := finish inplace
   match op with
   | .read n =>
     let r := readAttr R n s
